@@ -104,3 +104,23 @@ PROPS['C15'] = dict(
     explanation='E1: for each of the 25 (stored, requested) unit pairs and all values/frequencies/distances/shapes (incl. square arrays) the result equals the statement\'s relation '
                 '(F = nu F_nu, L = F d^2); A->B->A = id and A->B->C = A->C as lemmas over the spec; an unsupported unit reaches the raise. E2: the same through SED.write/SED.read.')
 PROPS['C01']['e1'] = PROPS['C01']['e1'] + [EXTN + 'get_av']
+
+CFX = 'sedfitter.convolved_fluxes.convolved_fluxes.ConvolvedFluxes.'
+SEDC = 'sedfitter.sed.sed.SED.'
+PROPS['C13'] = dict(
+    level='proof',
+    e1=[CFX + 'interpolate', SEDC + 'interpolate'],
+    e2=('rtc.io_props', 'run_c13'),
+    assumptions=COMMON + ['A-UNIT: unit model of sedvc/units.py', 'dep: scipy interp1d = the line of every tabulated segment containing the argument (rows of the table), ValueError outside the table '
+                          '(in-range is an obligation at the call)', 'interpolate_variable (the wavelength-dependent variant used by plot) is decided by the bounded run only',
+                          'float round-off of unit conversions is outside A-REAL (the bounded run covers it: see known_findings cf4fac7)'],
+    explanation='E1 (table in AU or pc, request in AU/pc/bare AU numbers, any table length >= 2, any number of requests and models, and the single-aperture case): exact at tabulated '
+                'radii, linear on every bracketing segment, largest-aperture value beyond the table, an exception iff some request is below the smallest aperture (both directions), '
+                'names / wavelength untouched, repetition for a single aperture. E2: the same natively incl. interpolate_variable.')
+PROPS['C17'] = dict(
+    level='exploration',
+    e1=[SEDC + 'scale_to_distance', SEDC + 'scale_to_av', SEDC + 'interpolate', EXTN + 'get_av'],
+    e2=('rtc.pipe_props', 'run_c17'),
+    assumptions=COMMON + ['matplotlib and the body of plot() are outside E1: the composite claim (curve through the predicted flux, number of curves, best fit last) is decided by the bounded run'],
+    explanation='E2 (bounded) decides the property on the real plot(). E1 proves the helper contracts it composes: scale_to_distance (inverse square, copy), scale_to_av (10^(A_V k)), '
+                'SED.interpolate, Extinction.get_av.')
